@@ -229,8 +229,19 @@ Ltac lor_to_add7 :=
 
 (* Z.of_N pushed to the leaves of + * mod ^ lor land (the hand models are written over N) *)
 Ltac n2z_push :=
-  repeat (progress (rewrite ?N2Z.inj_add, ?N2Z.inj_mul, ?N2Z.inj_mod, ?N2Z.inj_pow, ?N2Z_lor, ?N2Z_land));
+  repeat (progress (rewrite ?N2Z.inj_add, ?N2Z.inj_mul, ?N2Z.inj_mod, ?N2Z.inj_div, ?N2Z.inj_pow, ?N2Z_lor, ?N2Z_land));
   cbn [Z.of_N].
+
+(* closed arithmetic subterms (casts of literals, offsets) -> numerals *)
+Ltac closed_eval :=
+  repeat match goal with
+  | |- context [?a mod ?b] =>
+      tryif is_open (a mod b) then fail else (let v := eval vm_compute in (a mod b) in change (a mod b) with v)
+  | |- context [?a - ?b] =>
+      tryif is_open (a - b) then fail else (let v := eval vm_compute in (a - b) in change (a - b) with v)
+  | |- context [?a + ?b] =>
+      tryif is_open (a + b) then fail else (let v := eval vm_compute in (a + b) in change (a + b) with v)
+  end.
 
 (* Z.land with a mask 2^k - 1 -> mod *)
 Lemma zland_mask_l k m a : 0 <= k -> m = 2 ^ k - 1 -> Z.land m a = a mod 2 ^ k.
